@@ -96,6 +96,12 @@ F_Compare(Vr, Vc, tips, identical, res) ==
                       \cup Fail("CountCommon", res.common = Cardinality(R \cap C))
                       \cup Fail("CountOnlyCompared", res.tree2 = Cardinality(C \ R)))
 
+\* the Robinson-Foulds distance printed by `compare trees --rf`
+F_CompareRF(Vr, Vc, tips, res) ==
+  LET R == CmpSplits(Vr, tips)
+      C == CmpSplits(Vc, tips)
+  IN  Fail("RobinsonFouldsIsSymmetricDifference", res.rf = Cardinality(R \ C) + Cardinality(C \ R))
+
 F_CompareWeighted(Vr, Vc, tips, res) ==
   IF Vr.names # Vc.names THEN Fail("CompareRejectsOtherTaxa", res.err)
   ELSE IF res.err THEN {"CompareAcceptsSameTaxa"}
